@@ -95,6 +95,8 @@ def instances(tier, seed):
                         opts += [{'scale_bit': 16}, {'scale_bit': 12}]
                 if not kw and net in ('C', 'L') and b == 8:
                     opts += [{'restored': True}]
+                if be == 'MATCH' and not kw and net in ('C', 'L') and b == 8:
+                    opts += [{'clip': 0.5}]
                 for o in opts:
                     out.append({'id': f'{be}:{net}{kw}:bits={b}:{o}', 'what': 'net', 'backend': be, 'net': net, 'kw': kw, 'bits': b, 'opts': o, 'wseed': seed})
     for be in ('MATCH', 'MAUPITI'):
@@ -131,6 +133,13 @@ def _export(net, kw, bits, opts, wseed=0):
         qinfo['input_default']['search_precision'] = (in_bits,)
     m = MPS(model, input_shape=shape, qinfo=qinfo)
     m.eval()
+    if opts.get('clip'):
+        # trained (tight) clipping thresholds of the hidden activations: large requantisation scales, pre-activations far outside the clip range
+        from plinio.methods.mps.quant.quantizers import PACTAct
+        with torch.no_grad():
+            for n_, mod in m.named_modules():
+                if isinstance(mod, PACTAct) and 'input_quantizer' not in n_:
+                    mod.clip_val.fill_(float(opts['clip']))
     x0 = torch.rand(2, *shape)
     m(x0)
     e = m.export().eval()
@@ -143,6 +152,7 @@ def _build(net, kw, bits, backend, opts, wseed=0):
     opts = dict(opts)
     e, shape, x0 = _export(net, kw, bits, opts, wseed)
     opts.pop('in_bits', None)
+    opts.pop('clip', None)
     if opts.pop('restored', False):
         # a checkpoint of the same architecture with other weights / clipping values is loaded into the exported network and the
         # network is integerised straight away: everything the integer layers store must come from the loaded state, not from
@@ -403,9 +413,10 @@ def _run_net(res, p, selftest):
                         yq = qc(xf) - off
                     finally:
                         qc.out_quantizer.dequantize = True
-            return xi, list(st.to_arr(yi).reshape(-1)), list(st.to_arr(yq).reshape(-1))
+                guards = list(ex.guards)
+            return xi, list(st.to_arr(yi).reshape(-1)), list(st.to_arr(yq).reshape(-1)), guards
         ex = Explorer(timeout_ms=Q)
-        for pc, (xi, A, B) in ex.explore(fn):
+        for pc, (xi, A, B, guards) in ex.explore(fn):
             for k, (a, b) in enumerate(zip(A, B)):
                 if last:
                     bound = st.e_add(st.e_mul(st.e_abs(b), Fraction(1, 10 ** 4)), Fraction(1, 10 ** 4))
@@ -426,6 +437,19 @@ def _run_net(res, p, selftest):
                     _viol(res, dict(base, observable='layer', layer=n, x=xv, xshape=list(xs), tol=(tol if not last else 1e-3),
                                     key=f'{be}|layer:{type(ic).__name__}|{"last" if last else "requant"}|{net}{kw}|bits={bits}'),
                           f'{be} {n} ({type(ic).__name__}) differs from its fake-quantised counterpart by more than {"float rounding" if last else f"{tol:.3f} levels"} at integer input {xv}', selftest)
+                    break
+            # arithmetic in a narrow integer dtype must not overflow for any activation of the declared range
+            for g in guards:
+                rg, mg = ex.check(g)
+                if rg == 'unknown':
+                    res.inconclusive.append(f'{n}: overflow guard unknown')
+                    continue
+                res.oblige(rg == 'unsat')
+                if rg == 'sat':
+                    xv = [mg.eval(v, model_completion=True).as_long() for v in xi]
+                    _viol(res, dict(base, observable='layer', layer=n, x=xv, xshape=list(xs), tol=(tol if not last else 1e-3),
+                                    key=f'{be}|layer:{type(ic).__name__}|narrow_int_overflow|{net}{kw}|bits={bits}'),
+                          f'{be} {n} ({type(ic).__name__}): an intermediate value computed in a 32-bit (or narrower) integer dtype leaves its range at integer input {xv}', selftest)
                     break
             r, m = ex.must()
             xv = [m.eval(v, model_completion=True).as_long() for v in xi]
